@@ -50,7 +50,27 @@ type SVGImage struct {
 
 	// needed to draw text
 	cursorPosition, cursorDPosition point
+
+	// clip paths, masks and markers being drawn,
+	// to prevent infinite recursion on circular references
+	inProgress utils.Set
 }
+
+// enter marks the definition `key` as being drawn. It returns false
+// if it already is : the reference is circular and must be ignored.
+// leave must be called after drawing.
+func (svg *SVGImage) enter(key string) bool {
+	if svg.inProgress.Has(key) {
+		return false
+	}
+	if svg.inProgress == nil {
+		svg.inProgress = make(utils.Set)
+	}
+	svg.inProgress.Add(key)
+	return true
+}
+
+func (svg *SVGImage) leave(key string) { delete(svg.inProgress, key) }
 
 // DisplayedSize returns the value of the "width" and "height" attributes
 // of the <svg> root element, which discribe the displayed size of the rectangular viewport.
@@ -123,8 +143,9 @@ func (svg *SVGImage) drawNode(dst backend.Canvas, node *svgNode, dims drawingDim
 		}
 
 		// clip
-		if cp, has := svg.definitions.clipPaths[node.clipPathID]; has {
+		if cp, has := svg.definitions.clipPaths[node.clipPathID]; has && svg.enter("clip-path#"+node.clipPathID) {
 			svg.applyClipPath(dst, cp, node, dims)
+			svg.leave("clip-path#" + node.clipPathID)
 		}
 
 		// Handle text anchor
@@ -195,8 +216,9 @@ func (svg *SVGImage) drawNode(dst backend.Canvas, node *svgNode, dims drawingDim
 		}
 
 		// apply mask
-		if ma, has := svg.definitions.masks[node.maskID]; has {
+		if ma, has := svg.definitions.masks[node.maskID]; has && svg.enter("mask#"+node.maskID) {
 			svg.applyMask(dst, ma, node, dims)
+			svg.leave("mask#" + node.maskID)
 		}
 
 		// do the actual painting :
@@ -243,15 +265,16 @@ func (svg *SVGImage) drawMarkers(dst backend.Canvas, vertices []vertex, node *sv
 
 	// [start, mid, end] defautling to the common marker
 	markers := [3]*marker{commonMarker, commonMarker, commonMarker}
+	ids := [3]string{node.markerID, node.markerID, node.markerID}
 
 	if marker := svg.definitions.markers[node.markerStartID]; marker != nil {
-		markers[start] = marker
+		markers[start], ids[start] = marker, node.markerStartID
 	}
 	if marker := svg.definitions.markers[node.markerMidID]; marker != nil {
-		markers[mid] = marker
+		markers[mid], ids[mid] = marker, node.markerMidID
 	}
 	if marker := svg.definitions.markers[node.markerEndID]; marker != nil {
-		markers[end] = marker
+		markers[end], ids[end] = marker, node.markerEndID
 	}
 
 	for i, vertex := range vertices {
@@ -263,7 +286,7 @@ func (svg *SVGImage) drawMarkers(dst backend.Canvas, vertices []vertex, node *sv
 		}
 
 		marker := markers[position]
-		if marker == nil {
+		if marker == nil || !svg.enter("marker#"+ids[position]) {
 			continue
 		}
 
@@ -333,7 +356,7 @@ func (svg *SVGImage) drawMarkers(dst backend.Canvas, vertices []vertex, node *sv
 				svg.drawNode(dst, child, dims, paint)
 			})
 		}
-
+		svg.leave("marker#" + ids[position])
 	}
 }
 
